@@ -6,7 +6,7 @@ common.import_repo()
 from trie.smt import SparseMerkleTree, SparseMerkleProof  # noqa: E402
 
 ID = "C15"
-LEAN_IMPORTS = ["PyTrie.Props.C15"]
+LEAN_IMPORTS = ["PyTrie.Props.C15", "PyTrie.Props.SmtInt"]
 THEOREMS = [
     "PyTrie.Props.C15.in_sync_root",
     "PyTrie.Props.C15.update_keeps_sync",
@@ -15,6 +15,9 @@ THEOREMS = [
     "PyTrie.Smt.proof_update_tracks",
     "PyTrie.Smt.siblings_upd",
     "PyTrie.Smt.firstDiff_none_iff",
+    "PyTrie.Props.SmtInt.branch_point_is_first_diff",
+    "PyTrie.Props.SmtInt.proof_update_agrees",
+    "PyTrie.Props.SmtInt.bit_is_list_element",
 ]
 RULE = ("key sizes 1, 2, 3, 32 (and others), blank / non-blank defaults; a tree with some prior writes, a SparseMerkleProof "
         "created from the tree's current value and branch of a tracked key (stored, default-valued or blank), then a stream of "
